@@ -2549,3 +2549,86 @@ mod tests {
         assert!(result.is_ok());
     }
 }
+
+/// Verification-only thin wrappers (no logic of their own) around the private builder-fee
+/// helpers of this module and a few `pub(crate)` methods of [`Order`] / the GT state.
+/// Compiled only with `--cfg gmsol_verif`.
+#[cfg(gmsol_verif)]
+pub mod verif_hooks_g1 {
+    use super::*;
+
+    /// Calls the private `compute_builder_fee_amount`.
+    pub fn compute_builder_fee_amount(
+        size_delta_usd: u128,
+        factor: u128,
+        price: &Price<u128>,
+    ) -> Result<u128> {
+        super::compute_builder_fee_amount(size_delta_usd, factor, price)
+    }
+
+    /// Calls the private `clamp_builder_fee_amount`.
+    pub fn clamp_builder_fee_amount(fee_amount: u128, available: u128) -> u128 {
+        super::clamp_builder_fee_amount(fee_amount, available)
+    }
+
+    /// Calls the private `charge_builder_fee_on_collateral_increment`.
+    pub fn charge_builder_fee_on_collateral_increment(
+        collateral_increment_amount: u64,
+        size_delta_usd: u128,
+        builder_fee_factor: u128,
+        collateral_price: &Price<u128>,
+    ) -> Result<(u64, u64)> {
+        super::charge_builder_fee_on_collateral_increment(
+            collateral_increment_amount,
+            size_delta_usd,
+            builder_fee_factor,
+            collateral_price,
+        )
+    }
+
+    /// Calls the private `estimate_builder_fee_for_collateral_withdrawal`.
+    pub fn estimate_builder_fee_for_collateral_withdrawal(
+        collateral_withdrawal_amount: u128,
+        size_delta_usd: u128,
+        builder_fee_factor: u128,
+        collateral_price: &Price<u128>,
+        decrease_position_swap_type: DecreasePositionSwapType,
+    ) -> Result<u128> {
+        super::estimate_builder_fee_for_collateral_withdrawal(
+            collateral_withdrawal_amount,
+            size_delta_usd,
+            builder_fee_factor,
+            collateral_price,
+            decrease_position_swap_type,
+        )
+    }
+
+    /// Calls `Order::record_builder_fee`.
+    pub fn order_record_builder_fee(order: &mut Order, amount: u64) -> Result<()> {
+        order.record_builder_fee(amount)
+    }
+
+    /// Calls `GtState::init` on the store's GT state.
+    pub fn gt_init(
+        store: &mut Store,
+        decimals: u8,
+        initial_minting_cost: u128,
+        grow_factor: u128,
+        grow_step: u64,
+        ranks: &[u64],
+    ) -> Result<()> {
+        store
+            .gt_mut()
+            .init(decimals, initial_minting_cost, grow_factor, grow_step, ranks)
+    }
+
+    /// Calls `GtState::set_order_fee_discount_factors` on the store's GT state.
+    pub fn gt_set_order_fee_discount_factors(store: &mut Store, factors: &[u128]) -> Result<()> {
+        store.gt_mut().set_order_fee_discount_factors(factors)
+    }
+
+    /// Calls `GtState::order_fee_discount_factor` on the store's GT state.
+    pub fn gt_order_fee_discount_factor(store: &Store, rank: u8) -> Result<u128> {
+        store.gt().order_fee_discount_factor(rank)
+    }
+}
